@@ -12,6 +12,7 @@ PROPS = {
             {"name": "human", "quick": 4000, "thorough": 200000, "per_shard": 20000},
             {"name": "graph", "quick": 4000, "thorough": 200000, "per_shard": 1500},
             {"name": "parsers", "quick": 8000, "thorough": 400000, "per_shard": 20000},
+            {"name": "output", "quick": 1200, "thorough": 60000, "per_shard": 200},
         ],
         "rule": "counts: op x boundary-structured operand pairs (0,1,cap-1,cap,2^31,2^32±k,2^53,2^63, complements to the cap, equal operands, random); "
                 "distinct = distinct (op,a,b); every case is non-trivial (each exercises one arithmetic function on a fresh pair).",
@@ -47,7 +48,8 @@ PROPS["C15"] = {
     "technique": "Lean 4 proof on the listing-parser model + differential correspondence",
     "modules": ["GitSizer.Props.C15"],
     "engines": [{"name": "config", "quick": 12000, "thorough": 1200000, "per_shard": 3000},
-                {"name": "confige2e", "quick": 240, "thorough": 12000, "per_shard": 30}],
+                {"name": "confige2e", "quick": 240, "thorough": 12000, "per_shard": 30},
+                {"name": "refs", "quick": 6000, "thorough": 600000, "per_shard": 3000}],
     "rule": "config: listings serialised from entry lists (sections refgroup/foreign/near-miss names, subsections with dots/capitals/spaces/quotes, valueless keys, empty/multi-line values), mutated listings, key/prefix pairs cut at every position; confige2e: generated config files (global + local + command-line scope); distinct = distinct input bytes; non-trivial = git accepted the configuration.",
     "assumptions": ["`git config --list -z` prints key [LF value] NUL per entry"],
 }
